@@ -30,6 +30,20 @@ for d in seeded/C14-r7-deletion-guard-only-around-the-pull/patch.diff; do
   if pushgate; then echo "FAIL  $d is not flagged by Gen/PushCheck.v"; bad=1
   else echo "ok    $d flagged by Gen/PushCheck.v: $(grep -o 'line [0-9]*' $W/gen/out | head -1)"; fi
 done
+ackgate() {   # -> 0 if every theorem of Gen/AckCheck.v checks against the sources in $W/repo
+  mkdir -p $W/gen && rm -f $W/gen/*
+  $T/release/lockscan $W/repo $W/gen/LockEdges.v $W/gen/le.json || return 2
+  sed 's/From Deltio Require Import Gen.LockEdges\./From DeltioRun Require Import LockEdges./' coq/Gen/AckCheck.v > $W/gen/AckCheck.v
+  coqc -q -Q coq Deltio -Q $W/gen DeltioRun $W/gen/LockEdges.v >/dev/null 2>&1 || return 2
+  coqc -q -Q coq Deltio -Q $W/gen DeltioRun $W/gen/AckCheck.v >$W/gen/out 2>&1
+}
+git -C $W/repo checkout -q -- .
+if ackgate; then echo "ok    unchanged tree: Gen/AckCheck.v checks"; else echo "FAIL  unchanged tree is flagged by Gen/AckCheck.v"; tail -5 $W/gen/out; bad=1; fi
+for d in seeded/C02-r8-acknowledge-returns-when-queued/patch.diff; do
+  git -C $W/repo checkout -q -- . && git -C $W/repo apply $V/$d || { echo "FAIL  $d does not apply"; bad=1; continue; }
+  if ackgate; then echo "FAIL  $d is not flagged by Gen/AckCheck.v"; bad=1
+  else echo "ok    $d flagged by Gen/AckCheck.v: $(grep -o 'line [0-9]*' $W/gen/out | head -1)"; fi
+done
 git -C $W/repo checkout -q -- .
 if gate; then echo "ok    unchanged tree: all theorems check"; else echo "FAIL  unchanged tree is flagged"; cat $W/gen/out | tail -5; bad=1; fi
 for d in lockscan/selftest/*.diff seeded/C07-r4-push-loop-holds-registry-lock/patch.diff; do
